@@ -70,7 +70,7 @@ theorem stored_fields_in_range (O : Oracles) (f : Format) (s : List Nat) (it : I
 /-! ### well-formed text with out-of-range fields is rejected; the repaired panics are errors now -/
 
 /-- oracles for closed examples (`%J` and `%w` do not occur in them) -/
-def O0 : Oracles := ⟨fun _ => 0, fun _ => none⟩
+def O0 : Oracles := ⟨fun _ => none, fun _ => []⟩
 
 def fmtOf (s : String) : Format := match formatFromStr (Cal.strCodes s) with | .ok f => f | _ => ⟨[]⟩
 
